@@ -42,6 +42,33 @@ void __wrap_DVectNorm(dvector *v, dvector *n) {
   __real_DVectNorm(v, n);
 }
 
+/* Allocation budget: a reader that takes garbage for a dimension asks for gigabytes (row by row, so the
+ * allocator never refuses).  Every library call of a history gets a budget of 64 MB of requested bytes
+ * (the models need < 2 MB); exceeding it is a violation of the call in progress, not an OOM kill. */
+#define ALLOC_BUDGET (64L << 20)
+static long alloc_used = 0; static char alloc_key[160] = "alloc|setup"; static int fd_leak = 0;
+void *__real_xmalloc(size_t n); void *__real_xrealloc(void *p, size_t n);
+static void alloc_charge(size_t n) {
+  if (in_setup) return;
+  if (n > (size_t)ALLOC_BUDGET || (alloc_used += (long)n) > ALLOC_BUDGET) {
+    alloc_used = 0; fd_leak = 1;
+    vx_fail_abort(alloc_key, "the call asks for more than %ld MB of memory (last request %zu bytes): a dimension was read from the wrong place", ALLOC_BUDGET >> 20, n);
+  }
+}
+void *__wrap_xmalloc(size_t n) { alloc_charge(n); return __real_xmalloc(n); }
+void *__wrap_xrealloc(void *p, size_t n) { alloc_charge(n); return __real_xrealloc(p, n); }
+static void alloc_arm(const char *what, const char *kind, const char *cls) { alloc_used = 0; snprintf(alloc_key, sizeof alloc_key, "alloc|%s%s|%s", what, kind, cls); }
+/* an aborted call leaves its sqlite handle open; close those descriptors before the next history */
+static void close_leaked_fds(void) {
+  if (!fd_leak) return;
+  fd_leak = 0;
+  for (int fd = 3; fd < 1024; fd++) {
+    char ln[64], tgt[256]; snprintf(ln, sizeof ln, "/proc/self/fd/%d", fd);
+    ssize_t k = readlink(ln, tgt, sizeof tgt - 1); if (k <= 0) continue; tgt[k] = 0;
+    if (strncmp(tgt, "/dev/shm/c16_", 13) == 0 && strstr(tgt, ".sqlite3")) close(fd);
+  }
+}
+
 /* ------------------------------------------------------------------ model description */
 enum { K_PCA = 0, K_PLS = 1, K_CPCA = 2 };
 static const char *KN[3] = {"PCA", "PLS", "CPCA"};
@@ -212,6 +239,13 @@ static void pred_allowance(mdl *a) {
 static void finish(mdl *a) {
   flatten(a->kind, a->model, &a->F);
   for (int i = 0; i < a->F.nv; i++) if (!isfinite(*a->F.ptr[i])) { fprintf(stderr, "VX-HARNESS-ERROR: C16 setup: model %s holds a non-finite number (field index lookup %d); io.c cannot print it\n", a->name, i); _exit(2); }
+  /* two non-empty fields of one model must not hold the same content, or exchanging them would be invisible */
+  for (int f = 0; f < a->F.nf; f++) for (int g = f + 1; g < a->F.nf; g++) {
+    int n = a->F.v1[f] - a->F.v0[f]; if (n == 0 || n != a->F.v1[g] - a->F.v0[g] || FT[a->kind][f].type != FT[a->kind][g].type) continue;
+    int same = a->F.nd[f] == a->F.nd[g]; for (int k = 0; same && k < a->F.nd[f] && k < MAXDIM; k++) if (a->F.dim[f][k] != a->F.dim[g][k]) same = 0;
+    for (int i = 0; same && i < n; i++) if (*a->F.ptr[a->F.v0[f] + i] != *a->F.ptr[a->F.v0[g] + i]) same = 0;
+    if (same) { fprintf(stderr, "VX-HARNESS-ERROR: C16 setup: model %s: fields %s and %s hold identical content\n", a->name, FT[a->kind][f].name, FT[a->kind][g].name); _exit(2); }
+  }
   pred_allowance(a);
   a->h0 = flat_hash(&a->F, 1);
 }
@@ -232,12 +266,17 @@ static void build_models(void) {
   /* 3: PLS large, ny=2, nlv=2, autoscaled, validation/statistics fields filled by the library's own routines */
   { static const double cs[4] = {1e9, 1.0, 1e-9, 1e4}, ys[2] = {1e6, 1.0};
     matrix *x = gen(5, 8, 4, cs, 0.4), *y = gen(6, 8, 2, ys, 0.25); PLSMODEL *m; NewPLSModel(&m); PLS(x, y, 2, 1, 1, m, NULL);
-    PLSYPredictorAllLV(x, m, NULL, m->predicted_y);
+    /* "validation" predictions: the model applied to a perturbed copy of x, so that no validation field
+     * equals its recalculated twin (a swap of two tables must be visible) */
+    matrix *xv = gen(23, 8, 4, cs, 0.4); for (size_t i = 0; i < x->row; i++) for (size_t j = 0; j < x->col; j++) xv->data[i][j] = x->data[i][j] + 0.15 * (xv->data[i][j] - x->data[i][j]);
+    PLSYPredictorAllLV(xv, m, NULL, m->predicted_y); DelMatrix(&xv);
     ResizeMatrix(m->pred_residuals, m->predicted_y->row, m->predicted_y->col);
     for (size_t i = 0; i < y->row; i++) for (size_t j = 0; j < m->predicted_y->col; j++) m->pred_residuals->data[i][j] = y->data[i][j % y->col] - m->predicted_y->data[i][j];
     PLSRegressionStatistics(y, m->recalculated_y, m->r2y_recalculated, m->sdec, NULL);
     PLSRegressionStatistics(y, m->predicted_y, m->q2y, m->sdep, m->bias);
-    PLSRegressionStatistics(y, m->predicted_y, m->r2y_validation, NULL, NULL);
+    { matrix *xw = gen(24, 8, 4, cs, 0.4), *pw; initMatrix(&pw);   /* a second perturbed prediction for r2y_validation */
+      for (size_t i = 0; i < x->row; i++) for (size_t j = 0; j < x->col; j++) xw->data[i][j] = x->data[i][j] + 0.3 * (xw->data[i][j] - x->data[i][j]);
+      PLSYPredictorAllLV(xw, m, NULL, pw); PLSRegressionStatistics(y, pw, m->r2y_validation, NULL, NULL); DelMatrix(&xw); DelMatrix(&pw); }
     matrix *yb; NewMatrix(&yb, y->row, y->col);
     for (size_t j = 0; j < y->col; j++) { double mu = 0; for (size_t i = 0; i < y->row; i++) mu += y->data[i][j] / (double)y->row; for (size_t i = 0; i < y->row; i++) yb->data[i][j] = y->data[i][j] > mu ? 1.0 : 0.0; }
     PLSDiscriminantAnalysisStatistics(yb, m->recalculated_y, m->roc_recalculated, m->roc_auc_recalculated, m->precision_recall_recalculated, m->precision_recall_ap_recalculated);
@@ -300,7 +339,7 @@ static void body(void) {
   int L = vx_thorough() ? 4 : 3;
   int len = 1 + vx_choose("len-1", L);
   int hist[NPATH][MAXLEN], nh[NPATH] = {0, 0};
-  set_paths(); wipe_paths();
+  close_leaked_fds(); set_paths(); wipe_paths();
   uint64_t oh = 0x16;
   for (int s = 0; s < len; s++) {
     char lab[16]; snprintf(lab, sizeof lab, "write%d", s);
@@ -314,13 +353,16 @@ static void body(void) {
     vx_log("step %d: Write%s(%s, path %d)  [%s]\n", s, KN[kind], a->name, p, cls);
 
     uint64_t other_before = file_hash(PATHS[1 - p]);
+    alloc_arm("Write", KN[kind], cls);
     do_write(kind, PATHS[p], a->model); vx_transition(1);
+    { uint64_t fh = file_hash(PATHS[p]); oh = vx_hash(&fh, sizeof fh, oh); vx_outcome(oh); }   /* observed: the bytes written */
     flatten(kind, a->model, &G);
     snprintf(key, sizeof key, "write-mutates|Write%s", KN[kind]);
     vx_check(flat_hash(&G, 1) == a->h0, key, "step %d: the in-memory model %s changed while it was written", s, a->name);
     snprintf(key, sizeof key, "other-path|Write%s", KN[kind]);
     vx_check(file_hash(PATHS[1 - p]) == other_before, key, "step %d: writing path %d changed the file of path %d", s, p, 1 - p);
 
+    alloc_arm("Read", KN[kind], cls);
     void *r = do_read(kind, PATHS[p]); vx_transition(1);
     flatten(kind, r, &G);
     int ok = flat_compare(kind, &a->F, &G, 0, msg, sizeof msg);
@@ -332,6 +374,7 @@ static void body(void) {
       vx_check(ok2, "unsaved-field|PCA|dmodx", "Write/ReadPCA(%s): %s (WritePCA stores no dmodx table)", a->name, msg);
     }
     if (ok) {
+      alloc_arm("Predict", KN[kind], cls);
       int n = predict(a, r, pr); vx_transition(1);
       double worst = n == a->np ? 0 : INFINITY; int wj = 0;
       for (int j = 0; j < n && n == a->np; j++) { double e = fabs(pr[j] - a->pred[j]); if (!(e == e)) e = INFINITY; if (e / a->allow[j] > worst) { worst = e / a->allow[j]; wj = j; } }
@@ -340,11 +383,11 @@ static void body(void) {
       vx_check(worst <= 1.0, key, "step %d: prediction of the model read back (%s) differs: element %d is %.17g, the saved model gives %.17g (allowed %.3g)", s, a->name, wj, n == a->np ? pr[wj] : NAN, a->pred[wj], a->allow[wj]);
     }
     oh = vx_hash(&ok, sizeof ok, flat_hash(&G, 0) ^ oh);
+    vx_outcome(oh);                    /* per step: a history that later crashes still counts what it observed */
     do_del(kind, r);
     if (nh[p] < MAXLEN) hist[p][nh[p]++] = mi;
   }
   wipe_paths();
-  vx_outcome(oh);
 }
 
 /* remove /dev/shm/c16_<pid>/ (two levels); optionally collect the workers' margin files first */
@@ -400,7 +443,7 @@ int main(int argc, char **argv) {
   vx_describe("enumeration", "all write sequences of length 1..3 (quick: 12+144+1728) / 1..4 (thorough: +20736), every step judged");
   vx_describe("oracle", "reference = the in-memory model last written to the path: same dimension signature of every field, every number within 1e-15*max(1,|v|), empty fields empty; same probe prediction (allowance = 4 x first-order propagation of the per-number allowance); deep bitwise hash of the written model unchanged; bytes of the other path's file unchanged");
   vx_set_shard_depth(3);
-  vx_expect_outcomes(150);
+  vx_expect_outcomes(12);   /* thousands on a healthy tree; low bound because a crashing reader lets a history observe little */
   int rc = vx_main(argc, argv, "C16", body);
   cleanup_and_margins();
   return rc;
